@@ -32,6 +32,18 @@ static std::vector<std::string> splitOps(const std::string& s, char sep = ',') {
   }
   return out;
 }
+// start gate: worker threads of a case begin their op lists together (thread start-up is long
+// compared with the op lists, above all in the fine-grained build)
+struct StartGate {
+  std::atomic<int> go{0};
+  void wait() {
+    while (!go.load())
+      dsched_sleep_ns(500);
+  }
+  void open() {
+    go = 1;
+  }
+};
 static void burn(int n) {
   static std::atomic<int> sink{0};
   for (int i = 0; i < n; ++i)
@@ -337,12 +349,32 @@ static void runC23(Case& c) {
 // C24 AsyncRequest. Payload owns heap memory and knows whether it was moved from.
 struct Payload {
   std::unique_ptr<int> id; // null after being moved from
-  Payload() {}
-  explicit Payload(int v) : id(new int(v)) {}
-  Payload(Payload&& o) noexcept : id(std::move(o.id)) {}
+  // a wide body: in the fine-grained build every word copied is a schedule point, so a consumer can
+  // be preempted in the middle of moving the value out; all words must agree with the tag
+  int body[40];
+  Payload() {
+    for (int& b : body)
+      b = -1;
+  }
+  explicit Payload(int v) : id(new int(v)) {
+    for (int& b : body)
+      b = v;
+  }
+  Payload(Payload&& o) noexcept : id(std::move(o.id)) {
+    for (int i = 0; i < 40; ++i)
+      body[i] = o.body[i];
+  }
   Payload& operator=(Payload&& o) noexcept {
     id = std::move(o.id);
+    for (int i = 0; i < 40; ++i)
+      body[i] = o.body[i];
     return *this;
+  }
+  bool torn() const {
+    for (int i = 0; i < 40; ++i)
+      if (body[i] != (id ? *id : body[0]))
+        return true;
+    return false;
   }
 };
 static void genC24(Rng& r, KV& kv, const Opts&) {
@@ -385,10 +417,12 @@ static void runC24(Case& c) {
   std::atomic<int> nextVal{1};
   std::atomic<int> requestsStarted{0}, emplaceSucceeded{0}, getsEngaged{0};
   std::atomic<int> getsOpen{0}, getOverlap{0}, empOpen{0}, empOverlap{0};
+  StartGate gate;
   std::vector<std::thread> th;
   for (long t = 0; t < C; ++t) {
     auto ops = splitOps(c.p.s("c" + std::to_string(t)));
     th.emplace_back([&, ops]() {
+      gate.wait();
       for (auto& op : ops) {
         if (op == "q") {
           requestsStarted.fetch_add(1);
@@ -403,6 +437,7 @@ static void runC24(Case& c) {
             VF_CHECK(c, pl.id != nullptr, "moved-from-value-delivered",
                      "getUpdate() returned an engaged result whose payload had already been moved out by another getUpdate()");
             int v = *pl.id;
+            VF_CHECK(c, !pl.torn(), "torn-value-delivered", "getUpdate() returned a value that mixes two emplaced values (the slot was overwritten while it was being moved out)");
             VF_CHECK(c, v > 0 && v < 256 && emplacedOk[v].load() >= 0, "phantom-value", "getUpdate() returned a value nobody emplaced");
             int n = delivered[v].fetch_add(1) + 1;
             VF_CHECK(c, n == 1, "value-delivered-twice", "value %d was returned by %d getUpdate() calls", v, n);
@@ -418,6 +453,7 @@ static void runC24(Case& c) {
   for (long t = 0; t < P; ++t) {
     auto ops = splitOps(c.p.s("p" + std::to_string(t)));
     th.emplace_back([&, ops]() {
+      gate.wait();
       for (auto& op : ops) {
         if (op == "p") {
           int v = nextVal.fetch_add(1);
@@ -443,6 +479,7 @@ static void runC24(Case& c) {
       }
     });
   }
+  gate.open();
   for (auto& t : th)
     t.join();
   VF_CHECK(c, getsEngaged.load() <= emplaceSucceeded.load(), "more-deliveries-than-updates", "%d engaged getUpdate() results for %d successful emplaces",
